@@ -578,7 +578,7 @@ func genRoll(g *hx.Gen) {
 
 func gen(g *hx.Gen) {
 	r := g.R
-	n := g.Count(6000, 350000)
+	n := g.Count(6000, 300000)
 	for i := 0; i < n; i++ {
 		switch c := r.Intn(20); {
 		case c < 9:
